@@ -10,7 +10,7 @@ use proptest::prelude::*;
 use serde_json::{json, Value};
 
 const RULE: &str = "cells r = 0..29 (50% found by lookup at antimeridian / pole / near-pole / vertex / seam points, the rest from \
-the encoder) x closed/open ring x subdivision n in {1,2,3,7,16,64,default}. Oracles: length, closure bit-for-bit, finite \
+the encoder) x closed/open ring x subdivision n in {1,2,3,7,16,64,default} (2/3) or uniform in 1..64 (1/3). Oracles: length, closure bit-for-bit, finite \
 coordinates, |lat| <= 90, winding number of the ring about the reported centre == +1 (counter-clockwise and centre \
 inside, gnomonic at the centre), longitude window < 180 deg unless the ring contains or touches a pole (harness-side \
 predicate, 1e-9 rad), corners of the n = 1 ring present in every n ring within 1e-12 rad. non-trivial = the ring \
@@ -19,7 +19,8 @@ crosses the antimeridian, or is within 3 cell sizes of a pole, or n is neither 1
 const NS: [Option<i32>; 7] = [Some(1), Some(2), Some(3), Some(7), Some(16), Some(64), None];
 
 pub fn check_ring(id: u64, c: &Cell, nsel: u8, closed: bool, label: &str, st: &mut Stats) -> Result<(), String> {
-    let n = NS[nsel as usize % NS.len()];
+    // nsel < 7: the named values; otherwise any n in 1..=64
+    let n = if (nsel as usize) < NS.len() { NS[nsel as usize] } else { Some(1 + (nsel as i32 - NS.len() as i32) % 64) };
     let corners = if c.res == 1 { 3usize } else { 5usize };
     let ring = api::boundary_lonlat(id, n, closed).map_err(|e| format!("cell_to_boundary({:#x}) failed: {}", id, e))?;
     let extra = if closed { 1 } else { 0 };
@@ -103,7 +104,7 @@ pub fn check_ring(id: u64, c: &Cell, nsel: u8, closed: bool, label: &str, st: &m
     let near_pole = touches_pole || pole_dist < 3.0 * cell_size;
     let nt = crosses_am || near_pole || (n != Some(1) && n.is_some());
     if nt {
-        st.nontrivial(&(id, nsel % 7, closed));
+        st.nontrivial(&(id, nsel, closed));
     }
     if crosses_am {
         st.hit("crosses-antimeridian");
@@ -113,7 +114,7 @@ pub fn check_ring(id: u64, c: &Cell, nsel: u8, closed: bool, label: &str, st: &m
     } else if near_pole {
         st.hit("within-3-cell-sizes-of-pole");
     }
-    st.hit(&format!("n:{}", n.map(|k| k.to_string()).unwrap_or("default".into())));
+    st.hit(&format!("n:{}", match n { None => "default".to_string(), Some(k) if [1, 2, 3, 7, 16, 64].contains(&k) && (nsel as usize) < NS.len() => k.to_string(), Some(_) => "other(1..64)".to_string() }));
     st.hit(&format!("res:{:02}", c.res));
     st.hit(&format!("chosen-by:{}", label));
     st.sample(nt, || json!({"cell": gen::cell_json(c), "n": n, "closed": closed, "points": ring.len(), "lon_window": [lo, hi], "touches_pole": touches_pole, "first_points": ring.iter().take(3).collect::<Vec<_>>()}));
@@ -127,7 +128,7 @@ pub fn run(tier: Tier, seed: u64) -> Report {
         "rings",
         seed,
         tier.pick(40_000, 1_000_000),
-        || (picks(0, 29, 5), 0u8..7, any::<bool>()).boxed(),
+        || (picks(0, 29, 5), prop_oneof![2 => 0u8..7, 1 => 7u8..71], any::<bool>()).boxed(),
         |(p, nsel, closed), st| {
             let (id, c, label) = p.resolve()?;
             check_ring(id, &c, *nsel, *closed, label, st)
